@@ -2132,7 +2132,14 @@ class NamespacedRefsContainer(RefsContainer):
 
     def read_loose_ref(self, name: Ref) -> bytes | None:
         """Read a loose reference."""
-        return self._refs.read_loose_ref(Ref(self._apply_namespace(name)))
+        contents = self._refs.read_loose_ref(Ref(self._apply_namespace(name)))
+        if contents is not None and contents.startswith(SYMREF):
+            # The target of a symbolic ref is stored with the namespace prefix;
+            # present it relative to the namespace, as every other name is.
+            target = self._strip_namespace(contents[len(SYMREF) :])
+            if target is not None:
+                return SYMREF + target
+        return contents
 
     def get_packed_refs(self) -> dict[Ref, ObjectID]:
         """Get packed refs within this namespace."""
